@@ -1338,6 +1338,7 @@ Plan generate(const std::string& mode, uint64_t seed, uint64_t run) {
       // what the text denotes is decided by the independent parser (last occurrence wins)
       std::string text = op.qstr("b");
       RefJsonParser rp(text, true);
+      rp.allowPlus = true;
       auto parsed = rp.parseDocument();
       if (!parsed.ok)
         throw HarnessError("generator: the reference parser rejects the reference writer's text: " + parsed.error);
